@@ -13,6 +13,8 @@ R05.3 every unit that implements the SHA-1 / SHA-256 round function for the mult
       constants, tables in standard order; the init / final-hash units carry the standard initial hash values.
 R05.6 "shorter than 2^32 bytes": the byte-to-bit conversion feeding every length-field store is a 64-bit operation.
 R05.7 block loops keep their accumulators (see C10 R10.8) in the 8 assembly block functions.
+R05.8 the assembly block functions read the input only within [0, 1024 * num_blocks): length skeleton with 1..3
+      blocks (lib/lenrun.py).
 R05.4 "hashed ... with standard SHA-1 / SHA-256" (padding half): every store of the message bit length into a
       padding buffer that the C source asks for (tail functions, the final single-buffer hash) survives in the
       object built with the real flags - some instruction attributed to that source line writes memory.
@@ -45,6 +47,8 @@ def run(chk):
     mhrules.bit_length_width(chk, "R05.6", mods)
     nls = mhrules.loop_state_rule(chk, "R05.7", lib, r"^_mh_sha(1|256)_block_\w+$")
     chk.floor("block functions with loops checked for accumulator discipline", nls, 8)
+    nbb = mhrules.block_bounds(chk, "R05.8", lib, mods, "_mh_sha1_block") + mhrules.block_bounds(chk, "R05.8", lib, mods, "_mh_sha256_block")
+    chk.floor("block functions followed on the length skeleton", nbb, 8)
     ns = mhrules.length_store_survives(chk, "R05.4", lib, mods)
     chk.floor("bit-length stores checked for survival", ns, 6)
     nunits, nctx = c01.constant_rules(chk, lib, DIRS, "R05.3", "R05.3", {"SHA1": 6, "SHA256": 6}, {"SHA1": 2, "SHA256": 2}, ctx_pat=re.compile(r"^(mh_sha1|mh_sha256|sha1_for_mh_sha1|sha256_for_mh_sha256)\.o$"))
